@@ -68,7 +68,18 @@ def is_space(c):
     return c in ' \t\xa0\n\r'
 
 
-def build(kinds, rot=0):
+class Stmt:
+    """value-less statement such as `@include r;` (not a declaration)"""
+    kind = 'stmt'
+
+    def __init__(self, start, end, semi, parent):
+        self.start, self.name_end, self.semi = start, end, semi
+        self.end = semi + 1
+        self.parent = parent
+        self.children = []
+
+
+def build(kinds, rot=0, stmts=False):
     parts = []
     pos = 0
     items = []      # rules and declarations in document order
@@ -102,6 +113,15 @@ def build(kinds, rot=0):
             r.close = pos
             emit('}')
             r.end = pos
+        elif k == DECL and stmts and v % 3 == 2:
+            emit(WS[v % 4])
+            ns = pos
+            emit('@include r')
+            st = Stmt(ns, pos, pos, stack[-1] if stack else None)
+            emit(';')
+            if stack:
+                stack[-1].children.append(st)
+            items.append(st)
         elif k == DECL:
             emit(WS[v % 4])
             name, value = DECLS[v % len(DECLS)]
